@@ -37,8 +37,8 @@ from pyvc.sym import And, Or, Not, Implies, Ite
 from pyvc.srange import SRange
 from contracts.cursor_ghost import (
     SRC, leaf, mk_for, mk_if, mk_proc, tag, tag_name, stmt_lists, all_stmts, all_blocks,
-    get_path, is_symbolic, mk_range, g_index, g_subrange, in_rng, resolve_g,
-    path_eq, range_eq, cursor_eq, Runner)
+    get_path, is_symbolic, mk_range, g_index, g_subrange, g_above, in_rng, resolve_g,
+    path_eq, range_eq, cursor_eq, Runner, show_path, show_cursor, stable, Outcome)
 from exo.core.LoopIR import LoopIR, T
 from exo.core.prelude import Sym, SrcInfo
 from exo.core import internal_cursors as IC
@@ -46,6 +46,8 @@ from exo.core.internal_cursors import InvalidCursorError, GapType
 
 F = "src/exo/core/internal_cursors.py"
 RLIMIT = 5_000_000      # z3 resource limit per check (all queries here are small and linear)
+
+ENGINES = ["contracts.c06_forwarding:run_engine_selftest"]
 
 ASSUMPTIONS = [
     "C06 layer S: the (edit, forwarding) pairs are executed on generated procedures whose edited block has "
@@ -110,10 +112,6 @@ class Tree:
                 f"{show_path(self.ppath)}.{self.attr}; {show_tree(self.root)})")
 
 
-def show_path(p):
-    return "/".join(f"{a}[{i}]" if i is not None else a for a, i in p) or "<root>"
-
-
 def show_tree(n):
     def rec(x):
         nm = tag_name(x)
@@ -122,18 +120,6 @@ def show_tree(n):
             return nm
         return nm + "{" + "; ".join(f"{a}: [" + ", ".join(rec(y) for y in l) + "]" for a, l in ls) + "}"
     return "proc{" + "; ".join(f"{a}: [" + ", ".join(rec(y) for y in l) + "]" for a, l in stmt_lists(n)) + "}"
-
-
-def show_cursor(c):
-    if c is None:
-        return "None"
-    if isinstance(c, IC.Node):
-        return f"Node({show_path(c._path)})"
-    if isinstance(c, IC.Gap):
-        return f"Gap({c._type.name} {show_cursor(c._anchor)})"
-    if isinstance(c, IC.Block):
-        return f"Block({show_path(c._anchor._path)}.{c._attr}[{c._range.start}:{c._range.stop}])"
-    return repr(c)
 
 
 class Edit(types.SimpleNamespace):
@@ -718,8 +704,11 @@ def g_move(g, t):
     p, a2, l = g.choose(tb, "target list")
     k = g_index(g, "gk", len(l))
     ty = g.choose([GapType.Before, GapType.After], "side")
-    if ty is GapType.After:
-        g.assume(k == len(l) - 1)       # After(k) == Before(k+1) as an insertion point
+    if ty is GapType.After:                 # After(k) == Before(k+1) as an insertion point
+        if g.concrete:
+            k = len(l) - 1
+        else:
+            g.assume(k == len(l) - 1)
     # precondition (all 21 call sites in LoopIR_scheduling.py): the gap is anchored
     # neither at a moved statement nor inside one
     if l is t.OL:
@@ -979,8 +968,7 @@ def _(a):
 
 def g_block_arg(g, pname="rng"):
     lo = g.nat("a")
-    hi = g.int("b")
-    g.assume(lo < hi)
+    hi = g_above(g, "b", lo)
     e = g.int("e")          # an arbitrary old index   (universally quantified)
     j = g.int("j")          # an arbitrary new index   (universally quantified)
     return {"attr": "body", pname: mk_range(g, lo, hi), "__ghost__": {"e": e, "j": j}}
@@ -1013,8 +1001,7 @@ def _(a):
 
 def _o_replace(g):
     lo = g.nat("lo")
-    hi = g.int("hi")
-    g.assume(lo <= hi)
+    hi = g_above(g, "hi", lo, strict=False)
     m = g.nat("m")
     root = Dummy("old")
     blk = IC.Block(root, IC.Node(root, []), "body", mk_range(g, lo, hi))
@@ -1074,8 +1061,7 @@ def _(a):
 
 def _o_wrap(g):
     lo = g.nat("lo")
-    hi = g.int("hi")
-    g.assume(lo < hi)
+    hi = g_above(g, "hi", lo)
     root = Dummy("old")
     blk = IC.Block(root, IC.Node(root, []), "body", mk_range(g, lo, hi))
     g.ghost.update(lo=lo, hi=hi)
@@ -1153,8 +1139,8 @@ def _(a):
 # ---- range predicates, _starts_with, Gap._insertion_index -----------------------
 
 def g_any_range(g, name):
-    lo, hi = g.int(name + "0"), g.int(name + "1")
-    g.assume(lo <= hi)
+    lo = g.int(name + "0")
+    hi = g_above(g, name + "1", lo, strict=False)
     return mk_range(g, lo, hi)
 
 
@@ -1499,8 +1485,8 @@ def _(g):
 def _drive_compose(R, fn, a):
     h, exc = R.call(fn, a.ff, a.gf)
     if exc is not None:
-        return ("exc", exc)
-    return R.call(h, a.ghost.x)
+        return Outcome(None, exc)
+    return Outcome(*R.call(h, a.ghost.x))
 
 
 c_cmp.entry = lambda g, it, fn, a: _drive_compose(Runner(it), fn, a)
@@ -1586,6 +1572,12 @@ def _(a):
                path_eq(r._impl._path, ch.cur._impl._path))
 
 
+class CapResult(types.SimpleNamespace):
+    def __str__(self):
+        return (f"explicit={[stable(e) if x is None else stable(x) for e, x in self.explicit]} "
+                f"received={stable(self.seen)} exc={stable(self.exc)}")
+
+
 class _RecordingArg(_AS.CursorArgumentProcessor):
     def __init__(self):
         self.seen = []
@@ -1615,7 +1607,7 @@ def _drive_cap(R, fn, a):
     explicit = [R.call(_API.Procedure.forward, a.all_args["proc"], c) for c in a.ghost.orig]
     del a.ghost.ch.log[:]
     res, exc = R.call(fn, a.self, a.cur, a.all_args)
-    return types.SimpleNamespace(explicit=explicit, res=res, exc=exc, seen=list(a.self.seen))
+    return CapResult(explicit=explicit, res=res, exc=exc, seen=list(a.self.seen))
 
 
 c_cap.entry = lambda g, it, fn, a: _drive_cap(Runner(it), fn, a)
@@ -1646,3 +1638,97 @@ def _(a):
         return True
     got = r.seen[0] if a.ghost.as_list else [r.seen[0]]
     return all(x._proc is ch.procs[-1] and x._impl._root is ch.irs[-1] for x in got)
+
+
+
+# ============================================================================
+# self-test of the engine extension this property needed (pyvc/srange.py and
+# the symbolic list slices of pyvc/interp.py): the symbolic range must behave
+# like Python's `range`, a list slice with symbolic bounds like Python's slice.
+# Exhaustive over small concrete values; a validation of the engine, reported
+# under `bounded`, never counted as discharged.
+# ============================================================================
+
+def run_engine_selftest(tier="quick", seed=0):
+    import time, operator
+    from pyvc.sym import Ctx, set_ctx, PathInfeasible
+    from pyvc.interp import Interp, Policy
+    t0 = time.time()
+    res = dict(obligations=0, discharged=0, functions=[], assumptions=[], samples=[], violations=[],
+               undecided=[], bounded=[], clauses={}, solver_time_s=0.0)
+    bad = []
+    cases = 0
+    vals = range(-3, 6)
+
+    def pinned(pairs):
+        """a path context in which fresh symbolic ints are pinned to the given values"""
+        ctx = Ctx((), 5000, rlimit=RLIMIT)
+        old = set_ctx(ctx)
+        syms = []
+        for nm, v in pairs:
+            x = ctx.fresh_int(nm)
+            ctx.solver.add(S.lift(x) == v)
+            syms.append(x)
+        return ctx, old, syms
+
+    def value_of(ctx, term):
+        """the value the path condition forces on a result"""
+        if isinstance(term, bool) or isinstance(term, int):
+            return term
+        if isinstance(term, S.SBool):
+            r, m = ctx._check()
+            return z3.is_true(m.eval(term.t, model_completion=True))
+        r, m = ctx._check()
+        return m.eval(term.t, model_completion=True).as_long()
+
+    def outcome(f):
+        try:
+            return ("ok", f())
+        except IndexError:
+            return ("IndexError", None)
+
+    it = Interp(Policy())
+    for a in vals:
+        for b in vals:
+            pr = range(a, b)
+            for i in range(-7, 8):
+                # len / contains / getitem / eq
+                ctx, old, (x, y, k) = pinned([("x", a), ("y", b), ("k", i)])
+                try:
+                    sr = SRange(x, y)
+                    checks = [("len", value_of(ctx, sr.length()), len(pr)),
+                              ("contains", value_of(ctx, sr.contains(k)), i in pr)]
+                    got = outcome(lambda: sr[k])
+                    exp = outcome(lambda: pr[i])
+                    if got[0] == "ok":
+                        got = ("ok", value_of(ctx, got[1]))
+                    checks.append(("getitem", got, exp))
+                    for c2 in vals:
+                        if c2 not in (a, a + 1, b):
+                            continue
+                        other = range(c2, i) if False else range(c2, b)
+                        checks.append(("eq", value_of(ctx, sr.eq(other)), pr == other))
+                    for (u, v) in ((i, None), (None, i), (i, b), (a, i)):
+                        sl = sr[slice(k if u is i else u, k if v is i else v)]
+                        ps = pr[slice(u, v)]
+                        gs, ge = value_of(ctx, sl.start), value_of(ctx, sl.stop)
+                        checks.append(("slice", (max(0, ge - gs), gs if ge > gs else None),
+                                       (len(ps), ps.start if len(ps) else None)))
+                    # list slice with symbolic bounds through the interpreter
+                    lst = list(range(10, 10 + max(0, b - a)))
+                    checks.append(("listslice", it.getitem(lst, slice(k, None)), lst[i:]))
+                    checks.append(("listslice", it.getitem(lst, slice(None, k)), lst[:i]))
+                    for nm, g_, e_ in checks:
+                        cases += 1
+                        if g_ != e_:
+                            bad.append(f"{nm}: range({a},{b}) index {i}: engine {g_!r}, Python {e_!r}")
+                except PathInfeasible:
+                    bad.append(f"range({a},{b}) index {i}: infeasible path")
+                finally:
+                    set_ctx(old)
+    res["bounded"].append(dict(target="pyvc.srange.SRange and symbolic list slices vs Python range / slice semantics",
+                               bound="start, stop in [-3,5], index / slice bound in [-7,7]", cases=cases))
+    if bad:
+        res["undecided"] += [f"engine self-test (symbolic ranges): {b}" for b in bad[:5]]
+    res["solver_time_s"] = round(time.time() - t0, 2)
+    return res
